@@ -157,15 +157,20 @@ ScanLimit ==  \* decoders/*.go Scan: `if d.config.Limit != 0 && d.ammoNum >= d.c
 
 HasCtxCheck == K \in {"uri", "uris", "raw", "uripost"} /\ "noctx_scan" \notin Bugs
 
+\* jsonline looks at the pass bound at the TOP of its loop, i.e. after it has rewound the file; uri / raw / uripost look
+\* at it BEFORE the Seek (negative control "rewind_first": they rewind first too - harmless on a regular file, an
+\* error on a source that cannot seek although nothing more was wanted from it)
+RewindsFirst == K = "jsonline" \/ ("rewind_first" \in Bugs /\ K \in {"uri", "uris", "raw", "uripost"})
+
 ScanLine ==   \* one iteration of the read loop of uri / raw / uripost / jsonline Scan
   /\ pc = "scan"
   /\ IF HasCtxCheck /\ cancelled THEN Return("ctx")
-     ELSE IF K = "jsonline" /\ PassHit(passNum) THEN Return(BoundResult)    \* top of jsonline's loop
+     ELSE IF RewindsFirst /\ PassHit(passNum) THEN Return(BoundResult)    \* top of jsonline's loop
      ELSE IF pos < E
           THEN /\ pos' = pos + 1 /\ ammoNum' = ammoNum + 1 /\ pc' = "send"
                /\ Tick /\ UNCHANGED <<passNum, nload, inner>>
           ELSE \* EOF: next pass
-               IF K # "jsonline" /\ PassHit(passNum + 1) THEN Return(BoundResult)
+               IF ~RewindsFirst /\ PassHit(passNum + 1) THEN Return(BoundResult)
                ELSE IF ammoNum = 0 THEN Return("err")                      \* ErrNoAmmo
                ELSE IF K = "uripost" /\ inner + 1 >= 2 THEN Return("err")  \* "unexpected behavior"
                ELSE /\ passNum' = passNum + 1 /\ pos' = 0 /\ inner' = inner + 1 /\ pc' = "scan"
@@ -305,6 +310,17 @@ CloseAtExit == sinkClosed => res # "none"
 NoSpin      == idle <= Entries(c) + SpinSlack
 \* after a cancel the provider returns within CancelBound of its own steps
 Prompt      == aftc <= 2 * Entries(c) + CancelSlack
+
+\* REWINDS.  In this model every Seek(0, start) of a streaming file-backed provider is the step that starts the next
+\* pass: for uri / raw / uripost / jsonline passNum counts exactly those steps, grpc/json counts the pass it is in.
+\* The kinds that do not peek into the file (everything but http/json) never rewind unless an entry of a further pass
+\* is still wanted: with bounds that lie inside the first pass the file is read front to back once and never
+\* repositioned - so such a run needs nothing from its source but Read (a FIFO, a pipe).  TraceAmmoProvider binds this
+\* with a source whose Seek always fails (NoSeekOK).
+NoPeekKinds == {"uri", "raw", "uripost", "grpcjson"}
+Rewinds     == IF K \in {"uri", "raw", "uripost", "jsonline"} /\ ~c.preload THEN passNum
+               ELSE IF K = "grpcjson" /\ passNum > 0 THEN passNum - 1 ELSE 0
+NoNeedlessRewind == (K \in NoPeekKinds /\ Bounded(c)) => Rewinds * E < Expected(c)
 
 \* Every behaviour is finite (NoSpin + bounded deliveries), so what liveness demands is exactly that every
 \* state in which nothing fair can happen any more is a good final state:
